@@ -1,6 +1,7 @@
 import RPVerif.Lemmas.Sched
 import RPVerif.Lemmas.SchedHist
 import RPVerif.Lemmas.NodeList
+import RPVerif.Lemmas.SchedRun
 
 /-!
 # C01 — Pilot resources are never oversubscribed
@@ -145,5 +146,103 @@ theorem C01_nodelist_slot_fits (n n' : ANode) (rr : RR) (s : ASlot) (h : findSlo
       obtain ⟨_, he2, v, hv, hr⟩ := (scan_spec _ _ 0 _).2.1 e he
       exact ⟨v, by simpa using hv, by rw [he2]; exact hr⟩
     · intro e he; cases he
+
+/-! ## whole histories of the scheduling loop -/
+
+theorem coresOn_heldSlots (held : List (Nat × List Slot)) (idx : Nat) :
+    coresOn (heldSlots held) idx = held.flatMap (fun e => coresOn e.2 idx) := by
+  induction held with
+  | nil => rfl
+  | cons e es ih =>
+    have : heldSlots (e :: es) = e.2 ++ heldSlots es := by simp [heldSlots]
+    rw [this, coresOn_append, ih, flatMap_cons]
+
+/-- **C01 over every history of the scheduling loop** (placements made by the scheduler): for every
+    node layout (unique node indices, blocked cores / GPUs, non-negative storage and memory), every
+    script of loop iterations - arrivals, priorities, colocate / exclusive tags, named environments,
+    cancellations, completions in any order and at any time - whose release messages name placements
+    that are held (`RunOK`), after the run
+    * no core is held by two placements, no GPU is held by two placements,
+    * every core / GPU named by a held placement was FREE in the initial map (blocked ones are never
+      handed out),
+    * storage and memory held on a node never exceed what the node has (what is left is ≥ 0 and is
+      the initial amount minus what is held). -/
+theorem C01_history (c : Cfg) (nodes0 : List NodeSt) (its : List Iter) (hw : NodesWF nodes0) (hnn : NonNeg nodes0)
+    (hok : RunOK c { nodes := nodes0 } true its) :
+    (((runLoop c { nodes := nodes0 } true its []).1.held).Pairwise
+        (fun a b => ∀ idx, ∀ x ∈ coresOn a.2 idx, x ∉ coresOn b.2 idx))
+    ∧ GDisj (runLoop c { nodes := nodes0 } true its []).1.held
+    ∧ (∀ n0 ∈ nodes0, (∀ x ∈ coresOn (heldSlots (runLoop c { nodes := nodes0 } true its []).1.held) n0.index,
+                          n0.cores[x]? = some Occ.free)
+                     ∧ (∀ g ∈ gpusOn (heldSlots (runLoop c { nodes := nodes0 } true its []).1.held) n0.index,
+                          n0.gpus[g]? = some Occ.free)
+                     ∧ ((lfsOn (heldSlots (runLoop c { nodes := nodes0 } true its []).1.held) n0.index : Nat) : Int) ≤ n0.lfs
+                     ∧ ((memOn (heldSlots (runLoop c { nodes := nodes0 } true its []).1.held) n0.index : Nat) : Int) ≤ n0.mem) := by
+  have hinit : SInv nodes0 ({ nodes := nodes0 } : SchedSt) := ⟨hinv_init nodes0 hw hnn, rfl⟩
+  have hinv := runLoop_inv c nodes0 its _ true [] hinit hok
+  generalize (runLoop c { nodes := nodes0 } true its []).1 = s at hinv
+  obtain ⟨hI, _⟩ := hinv
+  -- every node of the initial list has its counterpart in the current list
+  have hnode : ∀ n0 ∈ nodes0, ∃ n, NodeInv n0 n (heldSlots s.held) := by
+    intro n0 hn0
+    obtain ⟨i, hi⟩ := getElem?_of_mem hn0
+    have hlt : i < s.nodes.length := by rw [hI.len]; exact (List.getElem?_eq_some_iff.mp hi).1
+    exact ⟨s.nodes[i], hI.node i n0 s.nodes[i] hi (getElem?_eq_getElem hlt)⟩
+  refine ⟨?_, hI.gdisj, ?_⟩
+  · -- cores: from the duplicate-freeness of everything held on a node
+    apply Pairwise.imp_of_mem (R := fun a b => ∀ idx, (∃ n0 ∈ nodes0, n0.index = idx) → ∀ x ∈ coresOn a.2 idx, x ∉ coresOn b.2 idx)
+    · intro a b ha hb hab idx x hx hxb
+      -- a slot with cores on node `idx` lies on a node of the list
+      have : ∃ n0 ∈ nodes0, n0.index = idx := by
+        unfold coresOn at hx
+        obtain ⟨sl, hsl, _⟩ := mem_flatMap.mp hx
+        have hsl' := mem_filter.mp hsl
+        obtain ⟨n0, hn0, hi⟩ := hI.onNode sl (mem_flatMap.mpr ⟨a, ha, hsl'.1⟩)
+        exact ⟨n0, hn0, by rw [hi]; simpa using hsl'.2⟩
+      exact hab idx this x hx hxb
+    · -- pairwise over the held list, node by node
+      have key : ∀ idx, (∃ n0 ∈ nodes0, n0.index = idx) →
+          s.held.Pairwise (fun a b => ∀ x ∈ coresOn a.2 idx, ∀ y ∈ coresOn b.2 idx, x ≠ y) := by
+        intro idx ⟨n0, hn0, hi⟩
+        obtain ⟨n, hn⟩ := hnode n0 hn0
+        have := hn.cnodup
+        rw [hi, coresOn_heldSlots] at this
+        exact (pairwise_flatMap.mp this).2
+      -- combine the per-node statements
+      have comb : ∀ (l : List (Nat × List Slot)),
+          (∀ idx, (∃ n0 ∈ nodes0, n0.index = idx) → l.Pairwise (fun a b => ∀ x ∈ coresOn a.2 idx, ∀ y ∈ coresOn b.2 idx, x ≠ y)) →
+          l.Pairwise (fun a b => ∀ idx, (∃ n0 ∈ nodes0, n0.index = idx) → ∀ x ∈ coresOn a.2 idx, x ∉ coresOn b.2 idx) := by
+        intro l
+        induction l with
+        | nil => intro _; exact Pairwise.nil
+        | cons e es ih =>
+          intro hl
+          refine pairwise_cons.mpr ⟨?_, ih (fun idx hidx => (pairwise_cons.mp (hl idx hidx)).2)⟩
+          intro b hb idx hidx x hx hxb
+          exact (pairwise_cons.mp (hl idx hidx)).1 b hb x hx x hxb rfl
+      exact comb s.held key
+  · intro n0 hn0
+    obtain ⟨n, hn⟩ := hnode n0 hn0
+    refine ⟨hn.cfree0, hn.gfree0, ?_, ?_⟩
+    · have := hn.lfs; have := hn.lfs0; omega
+    · have := hn.mem; have := hn.mem0; omega
+
+/-! non-vacuity (tests): a script that places two tasks, releases one, places a third on the freed
+    cores and releases everything meets `RunOK`; in between placements are held -/
+example :
+    RunOK { cpn := 2, gpn := 0, lfsPn := 0, memPn := 0 }
+      { nodes := [{ index := 0, cores := [.free, .free], gpus := [], lfs := 0, mem := 0 }] } true
+      [{ incoming := [.sched [{ uid := 1, ranks := 1, cpr := 1, gpr := 0, lfs := 0, mem := 0 },
+                              { uid := 2, ranks := 1, cpr := 1, gpr := 0, lfs := 0, mem := 0 }]] },
+       { incoming := [.sched [{ uid := 3, ranks := 1, cpr := 1, gpr := 0, lfs := 0, mem := 0 }]], unsched := [[1]] },
+       { unsched := [[2]] }, { unsched := [[3]] }] := by
+  unfold RunOK; decide +kernel
+
+example :
+    ((runLoop { cpn := 2, gpn := 0, lfsPn := 0, memPn := 0 }
+      { nodes := [{ index := 0, cores := [.free, .free], gpus := [], lfs := 0, mem := 0 }] } true
+      [{ incoming := [.sched [{ uid := 1, ranks := 1, cpr := 1, gpr := 0, lfs := 0, mem := 0 },
+                              { uid := 2, ranks := 1, cpr := 1, gpr := 0, lfs := 0, mem := 0 }]] }] []).1.held.map (·.1)) = [1, 2] := by
+  decide +kernel
 
 end RPVerif.C01
